@@ -213,6 +213,8 @@ def check(ctx):
     _power_operator(ctx, rep, model)
     _block_derivatives(ctx, rep, model)
     _derivative_liveness(rep, model)
+    from . import c06b
+    c06b.run(rep, model)
     return rep
 
 
